@@ -215,6 +215,28 @@ def fam_post_init(nmax: int = 2, *, batch: int = 2) -> Iterator[Config]:
                     yield Config(spec=spec, requested=((n - 1, False),), precached=(0,), batch=batch)
 
 
+def fam_inherit(nmax: int = 3, *, batch: int = 2, faults: bool = False) -> Iterator[Config]:
+    """Task types derived from other task types: TS derives from TB (max_parallel=1), adds the parameter
+    that holds its dependencies, and is itself declared without a limit.  Base-type tasks come before,
+    after and between derived ones."""
+    for n in range(1, nmax + 1):
+        for shape in all_shapes(n):
+            for types in itertools.product(('TS', 'TB', 'TA'), repeat=n):
+                if 'TS' not in types:
+                    continue
+                spec = mk_spec(shape, types=types)
+                req = tuple((i, False) for i in range(n))
+                yield Config(spec=spec, requested=req, batch=batch)
+                if n > 1:
+                    yield Config(spec=spec, requested=((n - 1, False),), batch=batch)
+                    yield Config(spec=spec, requested=tuple(reversed(req)), batch=batch)
+                    if any(shape):
+                        yield Config(spec=spec, requested=req, precached=(0,), batch=batch)
+                if faults and n > 1:
+                    for f in range(n):
+                        yield Config(spec=spec, requested=req, batch=batch, faults=(f,))
+
+
 def fam_corrupt(nmin: int = 2, nmax: int = 3, *, batch: int = 2) -> Iterator[Config]:
     """Warm caches in which the stored result of one entry is damaged (metadata intact): the entry looks
     cached, cannot be loaded - the task fails; it is not re-run behind the caller's back."""
